@@ -49,6 +49,18 @@ func VerifLineCol(lfs []int, pos int) (int, int) {
 	return lc.lineColAt(pos)
 }
 
+// VerifLineCols looks up several positions, in the given order, on ONE line
+// calculator (so that any state kept between lookups is exercised).
+func VerifLineCols(lfs []int, positions []int) [][2]int {
+	lc := &lineCalc{lfs: lfs}
+	out := make([][2]int, len(positions))
+	for i, pos := range positions {
+		l, c := lc.lineColAt(pos)
+		out[i] = [2]int{l, c}
+	}
+	return out
+}
+
 // VerifUvarintEnc is uvarintToBytes.
 func VerifUvarintEnc(x uint64) []byte {
 	var b [9]byte
